@@ -473,6 +473,13 @@ pub fn roundtrip_events(seed: u64, count: usize, dir: &str) -> (Vec<Value>, Vec<
                 if al.len() == 3 && rng.gen::<f64>() < 0.5 { *al = [vec![0.2, 0.7, 0.1], vec![0.3, 0.6, 0.1], vec![0.1, 0.2, 0.7]][rng.gen_range(0..3)].clone(); }
             }
         }
+        // P supplied as a full symmetric matrix (the file holds its upper triangle)
+        if rng.gen::<f64>() < 0.2 && p.P.nzval.len() > 0 {
+            let n = p.n();
+            let mut d = vec![vec![0.0; n]; n];
+            for j in 0..n { for k in p.P.colptr[j]..p.P.colptr[j + 1] { let i = p.P.rowval[k]; d[i][j] = p.P.nzval[k]; d[j][i] = p.P.nzval[k]; } }
+            p.P = Csc::from_dense(&d, n, n);
+        }
         // explicitly stored zeros are part of the problem's structure (a later update may fill them)
         if rng.gen::<f64>() < 0.15 && !p.A.nzval.is_empty() { let k = rng.gen_range(0..p.A.nzval.len()); p.A.nzval[k] = 0.0; }
         if rng.gen::<f64>() < 0.15 && !p.P.nzval.is_empty() { let k = rng.gen_range(0..p.P.nzval.len()); if p.P.rowval[k] != (0..p.P.n).find(|j| p.P.colptr[*j + 1] > k).unwrap() { p.P.nzval[k] = 0.0; } }
